@@ -37,7 +37,7 @@ MANIFEST = {
             "acquire and release'. (b) _accept_services through a sleep stub: symbolic accept_delay > 0, stop event "
             "(shutdown flag, trio.Cancelled, foreign exception) at a symbolic step <= 6: flags set/cleared on every exit, "
             "loop ends at the first check after the flag, delays min(i*accept_delay/10, accept_delay), a service sweep "
-            "before every sleep; shutdown()'s flag/wait/stop order on a stub runtime.",
+            "before every sleep; shutdown()'s flag/wait/stop order on a stub runtime. Next to the solver-decided claim, eleven ENUMERATED real-runtime lifecycle scenarios (shutdown returns, accept ends, restart possible, for several payload populations) are run concretely and reported as such.",
     "note": "NOT claimed: that shutdown() returns and accept() ends within bounded REAL time for every payload population "
             "(blocked threads, coroutines adopted during close), KeyboardInterrupt delivery - these need real threads and time",
     "design_ref": "DESIGN.md §4 C12",
